@@ -846,8 +846,8 @@ impl<'a> ParseState<'a, &'a str> {
             (self.starts_with) => (_);
             // 固定
             self.format.sentence.stamp_fixed => {
-                // 跳过自身
-                self.head_skip(self.format.sentence.stamp_fixed);
+                // 跳过自身&其后的连续空白（与其它条目一致：标识符与数值之间允许空白）
+                self.head_skip_and_spaces(self.format.sentence.stamp_fixed);
                 // 解析&跳过 整数值
                 let time = self.parse_isize()?;
                 // 生成时间戳
